@@ -173,6 +173,10 @@ func (br *Reader) Read() (*sam.Record, error) {
 	}
 
 done:
+	if b.err != nil {
+		// A field ran past the end of the record's block.
+		return nil, fmt.Errorf("bam: invalid record: %w", b.err)
+	}
 	refs := int32(len(br.h.Refs()))
 	if refID != -1 {
 		if refID < -1 || refID >= refs {
